@@ -36,6 +36,11 @@ func genOpt(nonZeroOpen bool) func(t *rapid.T, thorough bool) OptCase {
 		switch {
 		case nonZeroOpen:
 			c.M = genMatSpec(t, matOpts{openLo: -8, openHi: -1, gapLo: -6, gapHi: 0, openNonZero: true})
+			if rapid.IntRange(0, 5).Draw(t, "positiveOpen") == 3 {
+				// "non-zero" includes a positive gap-open score (NCBI tables read with ReadNCBI have
+				// {Gap,Gap} = +1 from their '* *' cell)
+				c.M.Open = rapid.IntRange(1, 3).Draw(t, "openPos")
+			}
 		case rapid.IntRange(0, 2).Draw(t, "shipped") == 0:
 			c.M = MatSpec{Named: rapid.SampledFrom(shippedNames).Draw(t, "matrix")}
 			if thorough {
@@ -72,7 +77,7 @@ func validateReference() (int, error) {
 	refSelfCheck.Do(func() {
 		seqs := allSeqs([]byte("ab"), 4)
 		for _, local := range []bool{false, true} {
-			for _, ms := range fixedMatrices([]int{0, -1, -3, -7}, local) {
+			for _, ms := range fixedMatrices([]int{0, -1, -3, -7, 1, 2}, local) {
 				_, rm, _ := ms.build()
 				for _, a := range seqs {
 					for _, b := range seqs {
@@ -143,6 +148,9 @@ func optimalOnce(c OptCase, o *Obs, m align.SubstitutionMatrix, rm ref.Matrix, w
 		if (k[0] == 255) != (k[1] == 255) && v > 0 {
 			positiveGap = true
 		}
+	}
+	if rm[[2]byte{255, 255}] > 0 {
+		positiveGap = true // a positive gap-open score is a positive gap score too
 	}
 	if c.Local && positiveGap {
 		o.Class("local with positive gap scores (score only)")
@@ -358,7 +366,7 @@ func TestRaceC09(t *testing.T) { RunConcurrent(t, propC09(), 4) }
 
 func propC10() Prop[OptCase] {
 	return Prop[OptCase]{ID: "C10", Gen: genOpt(true), Key: keyOpt,
-		Exhaustive: func(thorough bool, emit func(OptCase) bool) { exhaustiveOpt(thorough, []int{-1, -2, -5}, emit) },
+		Exhaustive: func(thorough bool, emit func(OptCase) bool) { exhaustiveOpt(thorough, []int{-1, -2, -5, 1}, emit) },
 		Check:      func(c OptCase, o *Obs) error { return checkOptimal(c, o, true) },
 		Known: func(c OptCase, err error) string {
 			if errors.Is(err, errKnownC10) {
